@@ -105,7 +105,7 @@ def hypotheses(cap):
             return 'hfiles'
         if n[1] == 'dir' and q not in err and q not in old_dirs:
             return 'hdirs'
-    if err & (vf | vd):
+    if err & vd:         # an error-created directory the virtual tree lists as a directory (one that is a regular file by now is harmless)
         return 'herr'
     if cf in P and os.path.dirname(cf) and os.path.dirname(cf) not in vd:
         return 'hcf'
